@@ -132,3 +132,22 @@ Proof.
   destruct ps as [|p0 r']; [discriminate|]. cbn in Hpo. inversion Hpo; subst.
   exists (p_id p0), (map p_id r'), p0, r'. repeat split.
 Qed.
+
+(* a Reader returning nil validators: same answers up to the creator lookup, which is a nil dereference *)
+Theorem validate_opt_some : forall cur vals e ps,
+  validate_opt cur (Some vals) e ps = Some (validate cur vals e ps).
+Proof.
+  intros. unfold validate_opt, validate, epoch_validate_opt.
+  destruct (basic_validate e); [|reflexivity]. destruct (epoch_validate cur vals e); reflexivity.
+Qed.
+
+Theorem validate_opt_none : forall cur e ps,
+  validate_opt cur None e ps =
+    match basic_validate e with
+    | Err k => Some (Err k)
+    | Ok => if e_epoch e =? cur then None else Some (Err NotRelevant)
+    end.
+Proof.
+  intros. unfold validate_opt, epoch_validate_opt.
+  destruct (basic_validate e); [|reflexivity]. destruct (e_epoch e =? cur); reflexivity.
+Qed.
